@@ -253,6 +253,22 @@ CHECKS = {
              "the fresh file, and the scheduled instant after every step are compared.",
         note=TLC_BASE + "; n >= 1; zones from the system tzdata via TZ; histories only in fixed-offset zones",
         design="7/C16"),
+    "C14": dict(
+        category="model_checking",
+        technique="TLA+ spec (ConfigFile.tla: logical documents, injected defects, outcome classes, surviving "
+                  "configuration over RoutingOps.tla) checked by TLC; every document rendered into YAML / JSON / TOML and "
+                  "loaded through the lossy and the strict pipeline",
+        text="A logical document is format independent (sections, optional fields, at most one injected defect); "
+             "Decide classifies it as rejected / partial / loaded and gives the surviving configuration, whose routing "
+             "meaning is C01's. TLC checks LossyKeepsRest and StrictIffNoDefect and enumerates 47k documents. The "
+             "harness renders each into the three formats and loads it with load_config_file (lossy) and with serde -> "
+             "RawConfig -> appenders -> strict build under catch_unwind; the class, the surviving appenders, the "
+             "deliveries of 25 probe records through a capture appender (incl. threshold filters and dropped broken "
+             "filters), the refresh rate, the append default and the encoder defaults must be what the specification "
+             "says in all three formats - hence equal to each other.",
+        note=TLC_BASE + "; one defect per document; real file / rolling / console appenders are built in scratch "
+             "directories",
+        design="7/C14"),
 }
 
 NOT_YET = "check not built yet in this round (planned, see DESIGN.md section 7)"
